@@ -35,17 +35,27 @@ class Unsupported(Exception):
     pass
 
 
-def flatten(asl):
-    """state name -> model record, for all nesting levels"""
+def flatten(asl, notes=None):
+    """state name -> model record, for all nesting levels.  Fields that only reshape the data (ResultPath,
+    Parameters, ResultSelector, InputPath, OutputPath, a Catcher's ResultPath) are accepted and ignored: the model
+    then carries the data abstractly -- `notes` receives "abstract-data", and JoinPositional (the only invariant
+    about values) is not claimed for the scenario.  A path that FAILS changes the control flow; the replay into the
+    real engine shows that as drift."""
     out = {}
+    notes = notes if notes is not None else set()
 
     def one(name, st):
         t = st["Type"]
         if t not in ("Pass", "Task", "Wait", "Succeed", "Fail", "Parallel", "Map"):
             raise Unsupported("state type %s" % t)
-        for k in ("InputPath", "OutputPath", "ResultPath", "Parameters", "ResultSelector", "ItemsPath", "ItemSelector"):
+        for k in ("ItemsPath", "ItemSelector"):
             if k in st:
                 raise Unsupported(k)
+        for k in ("InputPath", "OutputPath", "ResultPath", "Parameters", "ResultSelector"):
+            if k in st:
+                if st[k] is None:
+                    raise Unsupported(k + " null")
+                notes.add("abstract-data")
         r = {"type": t, "next": st.get("Next", ""), "end": bool(st.get("End", False)) or t in ("Succeed", "Fail"),
              "fn": "", "branches": [], "proc": "", "mc": 0, "retrymax": -1, "retryerrs": [], "catchnext": "", "catcherrs": [],
              "result": None, "error": ""}
@@ -76,8 +86,10 @@ def flatten(asl):
             r["retrymax"] = rt.get("MaxAttempts", 3)
             r["retryerrs"] = rt["ErrorEquals"]
         if st.get("Catch"):
-            if len(st["Catch"]) > 1 or "ResultPath" in st["Catch"][0]:
+            if len(st["Catch"]) > 1:
                 raise Unsupported("catcher list")
+            if "ResultPath" in st["Catch"][0]:
+                notes.add("abstract-data")
             r["catchnext"] = st["Catch"][0]["Next"]
             r["catcherrs"] = st["Catch"][0]["ErrorEquals"]
         if name in out:
@@ -107,10 +119,11 @@ def outcome_name(o):
     return o["error"]
 
 
-def generate(scn, workdir, max_crash=0, durable=False, name=None, dev=("F18", "F19")):
+def generate(scn, workdir, max_crash=0, durable=False, name=None, dev=("F18", "F19"), liveness=False):
     """Writes MC_<name>.tla/.cfg into workdir; returns the module name."""
     m = scn["machines"][0]
-    defs = flatten(m["asl"])
+    notes = set()
+    defs = flatten(m["asl"], notes)
     fns = sorted({r["fn"] for r in defs.values() if r["fn"]})
     outcomes = {f: [outcome_name(o) for o in scn.get("oracle", {}).get(f, [{"echo": 1}])] for f in fns}
     inputs = [s["input"] for s in scn["starts"]]
@@ -128,9 +141,13 @@ def generate(scn, workdir, max_crash=0, durable=False, name=None, dev=("F18", "F
     cfg = ["SPECIFICATION Spec", "CONSTANTS", " Def <- DefC", " StartAt <- StartAtC", " Inputs <- InputsC", " Outcomes <- OutcomesC",
            " MaxCrash = %d" % max_crash, " Durable = %s" % ("TRUE" if durable else "FALSE"),
            " Express = %s" % ("TRUE" if m.get("type") == "EXPRESS" else "FALSE"), " Dev <- DevC",
-           ] + (["INVARIANT NoBadOp", "INVARIANT NotifOK", "INVARIANT Drained", "INVARIANT NoLoss", "INVARIANT JoinPositional"] if max_crash == 0
+           ] + (["INVARIANT NoBadOp", "INVARIANT NotifOK", "INVARIANT Drained", "INVARIANT NoLoss"]
+                + ([] if "abstract-data" in notes else ["INVARIANT JoinPositional"]) if max_crash == 0
                 else ["INVARIANT NoLossUnderCrash"]) + [
            "CHECK_DEADLOCK FALSE"]
+    if liveness:
+        # C02 in the model: under weak fairness every execution ends and stays ended (temporal property, no state constraint)
+        cfg = [c for c in cfg if not c.startswith("INVARIANT")] + ["PROPERTY EventuallyDone"]
     with open(os.path.join(workdir, mod + ".cfg"), "w") as f:
         f.write("\n".join(cfg) + "\n")
     with open(os.path.join(workdir, mod + "_graph.cfg"), "w") as f:
@@ -140,7 +157,7 @@ def generate(scn, workdir, max_crash=0, durable=False, name=None, dev=("F18", "F
 
 def check(scn, workdir, max_crash=0, durable=False, workers=1, timeout=600, dump=None, liveness=False, name=None, dev=("F18", "F19")):
     """dump: path prefix; when given, the graph is explored without invariants and written to <dump>.dot"""
-    mod = generate(scn, workdir, max_crash, durable, name, dev)
+    mod = generate(scn, workdir, max_crash, durable, name, dev, liveness)
     extra = []
     cfg = mod + ".cfg"
     if dump:
@@ -152,6 +169,8 @@ def check(scn, workdir, max_crash=0, durable=False, workers=1, timeout=600, dump
     m = re.search(r"Invariant (\w+) is violated", r["out"])
     if m:
         inv = m.group(1)
+    elif re.search(r"Temporal propert\w+ .*violated", r["out"]):
+        inv = "EventuallyDone"
     return {"ok": ok, "violated": inv, "states": r["distinct"], "generated": r["states"], "wall": r["wall"], "out": r["out"], "module": mod}
 
 
